@@ -1093,3 +1093,83 @@ Example ex_scatter_hyps :
   fst (scatter_ds unit tt ex_choice tt xf yf xf yf fall 2 false)
   = Ok [Fin 4; Fin 5] [Fin 3; Fin 1] [false; false; false; true; true].
 Proof. vm_compute. split; reflexivity. Qed.
+
+(* ======================================================================== *)
+(* the selection depends on the values only up to a positive unit per array  *)
+(* (the harness encodes each array with its own binary exponent)             *)
+(* ======================================================================== *)
+Definition scale_fval (c : Z) (v : fval) : fval :=
+  match v with Fin z => Fin (c * z) | _ => v end.
+
+Definition mask_of (r : result) : list bool + error :=
+  match r with Ok _ _ keep => inl keep | Err e => inr e end.
+
+Lemma fold_min_scale c l : 0 <= c -> forall z0,
+  fold_left Z.min (map (Z.mul c) l) (c * z0) = c * fold_left Z.min l z0.
+Proof.
+  intros Hc. induction l as [|x l IH]; intros z0; cbn [map fold_left]; [reflexivity|].
+  rewrite Z.mul_min_distr_nonneg_l by exact Hc. apply IH.
+Qed.
+
+Lemma fold_max_scale c l : 0 <= c -> forall z0,
+  fold_left Z.max (map (Z.mul c) l) (c * z0) = c * fold_left Z.max l z0.
+Proof.
+  intros Hc. induction l as [|x l IH]; intros z0; cbn [map fold_left]; [reflexivity|].
+  rewrite Z.mul_max_distr_nonneg_l by exact Hc. apply IH.
+Qed.
+
+Lemma discretize_scale c ad : 0 < c -> discretize (map (Z.mul c) ad) = discretize ad.
+Proof.
+  intros Hc. destruct ad as [|z0 r]; [reflexivity|].
+  unfold discretize, zmin_list, zmax_list. cbn [map].
+  rewrite fold_min_scale, fold_max_scale by lia.
+  set (mn := fold_left Z.min r z0). set (mx := fold_left Z.max r z0).
+  replace (c * mx - c * mn) with (c * (mx - mn)) by lia.
+  destruct (mx - mn =? 0) eqn:E.
+  - replace (c * (mx - mn) =? 0) with true by lia. cbn [length]. now rewrite map_length.
+  - assert (Hne : c * (mx - mn) <> 0) by (apply Z.neq_mul_0; lia).
+    replace (c * (mx - mn) =? 0) with false by lia.
+    assert (Hcell : forall z, (c * z - c * mn) * 299 / (c * (mx - mn))
+                              = (z - mn) * 299 / (mx - mn)).
+    { intros z. replace ((c * z - c * mn) * 299) with (c * ((z - mn) * 299)) by lia.
+      apply Z.div_mul_cancel_l; lia. }
+    cbn [map]. f_equal; [apply Hcell|]. rewrite map_map. apply map_ext. intros z. apply Hcell.
+Qed.
+
+Lemma is_bad_scale c l : map is_bad (map (scale_fval c) l) = map is_bad l.
+Proof. rewrite map_map. apply map_ext. now intros []. Qed.
+
+Lemma select_map {A B} (f : A -> B) m : forall l,
+  select m (map f l) = map f (select m l).
+Proof.
+  induction m as [|b m IH]; intros [|x l]; cbn [map select]; try reflexivity.
+  destruct b; cbn [map]; now rewrite IH.
+Qed.
+
+Lemma fin_val_scale c l :
+  map fin_val (map (scale_fval c) l) = map (Z.mul c) (map fin_val l).
+Proof. rewrite !map_map. apply map_ext. intros []; cbn; lia. Qed.
+
+Lemma grid_scale_invariant (rng : Type) (seed47 : rng)
+      (choice_st : rng -> Z -> Z -> list Z * rng) g ca cb a b samples ri :
+  0 < ca -> 0 < cb ->
+  mask_of (fst (downsample_grid rng seed47 choice_st g
+                  (map (scale_fval ca) a) (map (scale_fval cb) b) samples ri))
+  = mask_of (fst (downsample_grid rng seed47 choice_st g a b samples ri)).
+Proof.
+  intros Ha Hb. unfold downsample_grid. rewrite !is_bad_scale.
+  set (bad := map2 orb (map is_bad a) (map is_bad b)). set (good := map negb bad).
+  rewrite !select_map, !fin_val_scale.
+  set (ad := map fin_val (select good a)). set (bd := map fin_val (select good b)).
+  assert (E : grid_phase rng seed47 choice_st g (map (Z.mul ca) ad) (map (Z.mul cb) bd) samples good good
+              = grid_phase rng seed47 choice_st g ad bd samples good good).
+  { unfold grid_phase. rewrite !discretize_scale by assumption. unfold zlen. now rewrite map_length. }
+  rewrite E. destruct (grid_phase rng seed47 choice_st g ad bd samples good good) as [[k1|e] g1]; [|reflexivity].
+  destruct (pad_phase rng seed47 choice_st g1 k1 bad samples ri) as [[k|e] g2]; reflexivity.
+Qed.
+
+Example ex_scale :
+  mask_of (fst (downsample_grid unit tt ex_choice tt (map (scale_fval 8) ex_a)
+                                (map (scale_fval 1024) ex_b) 6 true))
+  = inl [true; true; false; true; false; true; false; true; true].
+Proof. vm_compute. reflexivity. Qed.
